@@ -349,6 +349,7 @@ func (s *Server) liveSubscription(
 	}()
 
 	msgs := []*Message{msg}
+	var rerr error
 	for {
 		for _, msg := range msgs {
 			start = time.Now()
@@ -388,13 +389,13 @@ func (s *Server) liveSubscription(
 				writeSubscribe(msg.Command(), channel, len(m[0])+len(m[1]))
 			}
 		}
-		var err error
-		msgs, err = rd.ReadMessages()
-		if err != nil {
-			if err == io.EOF {
+		// the commands of a read are answered before its error is acted on
+		if rerr != nil {
+			if rerr == io.EOF {
 				return nil
 			}
-			return err
+			return rerr
 		}
+		msgs, rerr = rd.ReadMessages()
 	}
 }
